@@ -7,6 +7,7 @@ import (
 	"math/rand"
 	"sort"
 	"strings"
+	"sync"
 	"time"
 
 	"github.com/ProtonMail/gluon/db"
@@ -680,6 +681,12 @@ func c08Sequence(r *ev.Run, label string, nOps int) {
 		if c.rng.Intn(2) == 0 {
 			c.randomReads(6)
 		}
+
+		// Every now and then several readers at once: Read only takes a shared lock, so this
+		// makes the client use several pooled connections; later transactions may run on any of them.
+		if c.rng.Intn(8) == 0 {
+			c.concurrentReaders(2 + c.rng.Intn(4))
+		}
 	}
 
 	if !c.failed && r.WantSample() {
@@ -694,6 +701,55 @@ func c08Sequence(r *ev.Run, label string, nOps int) {
 
 func (c *c08Case) note(op, outcome string, n int) {
 	c.r.Distinct(fmt.Sprintf("%s %s len=%s", op, outcome, lenClass(n)))
+}
+
+// concurrentReaders dumps the database from n goroutines at once; every dump must equal the model.
+func (c *c08Case) concurrentReaders(n int) {
+	want := c.model.dump()
+
+	var (
+		wg    sync.WaitGroup
+		mu    sync.Mutex
+		diffs []string
+	)
+
+	gate := make(chan struct{})
+
+	for i := 0; i < n; i++ {
+		wg.Add(1)
+
+		go func() {
+			defer wg.Done()
+
+			_ = c.client.Read(context.Background(), func(ctx context.Context, rd db.ReadOnly) error {
+				<-gate // all readers are inside Read (holding a connection each) before any proceeds
+
+				got, err := dumpDB(ctx, rd)
+
+				mu.Lock()
+				defer mu.Unlock()
+
+				if err != nil {
+					diffs = append(diffs, "error: "+err.Error())
+				} else if d := firstDiff(want, got); d != "" {
+					diffs = append(diffs, d)
+				}
+
+				return nil
+			})
+		}()
+	}
+
+	time.Sleep(2 * time.Millisecond)
+	close(gate)
+	wg.Wait()
+
+	c.logf("%d concurrent readers", n)
+	c.r.Distinct(fmt.Sprintf("concurrent-readers n=%d", n))
+
+	if len(diffs) > 0 {
+		c.violate("C08 state-differs concurrent-readers", fmt.Sprintf("a concurrent reader saw a database that differs from the model: %s", diffs[0]))
+	}
 }
 
 // randomWrite performs one write transaction consisting of 1-3 operations, possibly aborted.
